@@ -24,13 +24,6 @@ import (
 	"github.com/zenon-network/go-zenon/wallet"
 )
 
-// hx renders bytes as lower-case hex, "-" for empty.
-func hx(b []byte) string {
-	if len(b) == 0 {
-		return "-"
-	}
-	return hex.EncodeToString(b)
-}
 
 // ---- independent reference of SLIP-0010 ed25519 (hardened only), written from the statement ---------
 
